@@ -84,9 +84,8 @@ def unchanged(fv, node, st):
         names = sorted(fv.E.field_types)
     conj = []
     for f in names:
-        d = fv.E.field_types[f]
-        fty = fv.E.parse_ty(next(iter(d.values())))
-        cur = fv.heap_array(st, f, fty)
-        old = z3.Const('H_%s!0' % f, z3.ArraySort(P.V, zsort(fty)))
-        conj.append(z3.Select(cur, o.term) == z3.Select(old, o.term))
+        for key, fty in fv.field_variants(f):
+            cur = fv.heap_array(st, f, fty)
+            old = z3.Const('H_%s!0' % key, z3.ArraySort(P.V, zsort(fty)))
+            conj.append(z3.Select(cur, o.term) == z3.Select(old, o.term))
     return z3.And(*conj) if conj else z3.BoolVal(True)
